@@ -126,7 +126,7 @@ pub fn exec(rec: &Value, _st: &mut State) -> Value {
         // which side of the camber the upper surface lies on: sign of (upper midpoint - camber midpoint) . requested direction (base frame)
         let up_side = match (&g.upper, g.camber.at_fraction(0.5)) {
             (Some(u), Some(cm)) => { let um = u.at_fraction(0.5).map(|s| s.point()).unwrap_or(cm.point()); let w = ti * (um - cm.point());
-                let d = if gs(&rec["face"], "kind") == "detect" { Vector2::new(0.0, 1.0) } else { let d = gvi(&rec["face"], "d"); Vector2::new(d[0] as f64, d[1] as f64) };
+                let d = if gs(&rec["face"], "kind") == "detect" { Vector2::new(0.0, if rec.get("mirror").and_then(|m| m.as_bool()).unwrap_or(false) { -1.0 } else { 1.0 }) } else { let d = gvi(&rec["face"], "d"); Vector2::new(d[0] as f64, d[1] as f64) };
                 cmp3(w.dot(&d), 0.0) }
             _ => 2,
         };
